@@ -920,6 +920,9 @@ fn e2e_self_exit_and_restart(ctx: &Ctx, agg: &mut Agg) -> Value {
     if let Some(u) = v["unavailable"].as_str() {
         return json!({"skipped": format!("the sandbox does not allow it: {u}")});
     }
+    if e2e::too_slow(&v) {
+        return json!({"verdict": e2e::slow_note(&v), "observed": v});
+    }
     if v["first_lifetime_never_synchronized"] == true {
         machinery_failure("C04 end-to-end scenario: the first daemon never published a Synchronized record against the stand-in chronyd");
     }
@@ -996,6 +999,11 @@ fn e2e_stalled_daemon(ctx: &Ctx, agg: &mut Agg) -> Value {
             return json!({"skipped": format!("the sandbox does not allow it: {u}")});
         }
         let before = if pre.is_some() { "9 bytes of garbage" } else { "nothing" };
+        if e2e::too_slow(&v) {
+            reached += 1;
+            report.push(json!({"daemon_stopped_at": p, "at_the_path_before": before, "verdict": e2e::slow_note(&v)}));
+            continue;
+        }
         if v["stall_point_reached"] == true {
             reached += 1;
             if v["client_returned"] != true {
